@@ -57,8 +57,14 @@ def _collapse_invariants(
             invariants.extend(getattr(base, invariants_dunder))
 
     # Add invariants in the current namespace
+    #
+    # If the class is created anew from the namespace of an existing class (*e.g.*, by
+    # ``dataclasses.dataclass(slots=True)``), the namespace already includes the invariants of the bases.
+    # They must not be listed (and checked) twice.
     if invariants_dunder in namespace:
-        invariants.extend(namespace[invariants_dunder])
+        for invariant in namespace[invariants_dunder]:
+            if not any(invariant is another for another in invariants):
+                invariants.append(invariant)
 
     # Change the final invariants in the namespace.
     #
